@@ -9,6 +9,7 @@ pub mod c18;
 pub mod c19;
 pub mod c04;
 pub mod c05;
+pub mod c06;
 pub mod c07;
 pub mod c09;
 pub mod c10;
@@ -28,6 +29,7 @@ pub fn dispatch(args: &Args, rep: &Arc<Report>) -> bool {
         "c02" => c02::run(args, rep),
         "c03" => c03::run(args, rep),
         "c05" => c05::run(args, rep),
+        "c06" => c06::run(args, rep),
         "c07" => c07::run(args, rep),
         "c08" => c08::run(args, rep),
         "c14" => c14::run(args, rep),
